@@ -563,6 +563,9 @@ inline RunOut run_inter(const Role &prover, const Role &verifier, uint64_t seed,
 {
 	static int threads = -1;
 	if (threads < 0) { const char *e = getenv("C3_TRANSPORT"); threads = (e && !strcmp(e, "threads")) ? 1 : 0; }
+#if defined(__SANITIZE_ADDRESS__)
+	threads = 1;   // ASan does not follow ucontext stack switches (exceptions on a coroutine stack give false reports)
+#endif
 	return threads ? run_inter_threads(prover, verifier, seed, mut) : run_inter_co(prover, verifier, seed, mut);
 }
 
